@@ -1,11 +1,11 @@
 (** C14 — at the HTTP level: a request whose decoded path routes to a handler naming one message the mailbox does not hold is answered 404 and changes nothing — in particular GET …/serve/mailbox/name/id/attach/num/file with a well-formed attachment number *)
 From IV Require Import Base.Bytes Model.StoreSpec Model.Rest Proofs.Rest Proofs.RestRoute Proofs.RestClient Proofs.RestBase.
 Theorem missing_is_404_http :
-  (forall mfa cfg base st m body segs segs' h name id num mb,
+  (forall mfa cfg srcok base st m body segs segs' h name id num mb,
      segs' <> [] -> Forall2 dec_as segs segs' -> Forall nosl segs' -> Forall (fun s => plain_seg s = true) segs' ->
      route base m segs' = RHandler h name id num ->
      mfa name = Some mb -> spec_get cfg st mb id = NotExist -> addresses_message h body num = true ->
-     serve mfa cfg base st {| rq_meth := m; rq_path := join_slash segs; rq_body := body |} = (st, (S404, PNone))) /\
+     serve mfa cfg srcok base st {| rq_meth := m; rq_path := join_slash segs; rq_body := body |} = (st, (S404, PNone))) /\
   (forall base name id num file, name <> [] -> id <> [] -> num <> [] -> file <> [] ->
      route base GET (base ++ [s_serve; s_mailbox; name; id; s_attach; num; file]) = RHandler UAtt name id num).
 Proof. split; [exact RestBase.missing_is_404_http|exact route_attach]. Qed.
